@@ -67,7 +67,7 @@ pub fn run(ctx: &Ctx) -> Outcome {
         },
     ];
     let mut specs = specs;
-    specs.push(Spec {
+    specs.insert(0, Spec {
         name: "index-after-rewrite",
         roots: vec![("L2", true)],
         alphabet: index_after_rewrite(),
